@@ -81,7 +81,7 @@ func TestC19(t *testing.T) {
 	perSc := map[string]int{} // closure starts kept per scenario (a single cap would be used up by the first scenario)
 	seenSc := map[string]int{}
 	k := 0
-	runWorld(t, run, []scOpt{s2, s3, s3m, s3again, s3back}, []func(*w.MonCtx){w.MonC19, w.MonC14Status}, 0, func(sc *w.Scenario, s *w.State, d int) {
+	runWorld(t, run, []scOpt{s2, s3, s3m, s3again, s3back}, []func(*w.MonCtx){w.MonC19, w.MonC14Status, w.MonC19Effects}, 0, func(sc *w.Scenario, s *w.State, d int) {
 		if s.Mem["lastcmd"] != "" {
 			k++
 			seenSc[sc.Name]++
@@ -99,6 +99,7 @@ func TestC19(t *testing.T) {
 	for _, c := range allKubectl {
 		requireAntecedents(run, "C19/command-succeeded:"+c)
 	}
+	requireAntecedents(run, "C19/frozen-sync", "C19/paused-sync")
 	requireAntecedents(run, "C19/command-overtook-reconcile:canary-fail", "C19/command-overtook-reconcile:canary-pause")
 	// interpretation by the controller: run the fair closure (no validation by the driver) from states reached
 	// after a successful command and look at the outcome
@@ -173,7 +174,7 @@ func TestC19(t *testing.T) {
 	if n := run.Counter("after_states_not_kept"); n > 0 {
 		run.NotExhaustive(fmt.Sprintf("%d states beyond the first 50000 of a scenario were not used as closure starts", n))
 	}
-	exit(run.Finish(fmt.Sprintf("BFS of a rolling update and of auto/manual canaries in which every sequence of up to %d kubectl-eds commands (all eight, real command bodies through the export shims) is interleaved with every order of reconciles, kubelet steps, restarts and a later template change; monitor C19 on every command (precondition, refusal leaves no trace, object diff limited to the documented annotation/condition); closures from the states after successful commands check the controller's interpretation; non-trivial = scenarios", b)))
+	exit(run.Finish(fmt.Sprintf("BFS of a rolling update and of auto/manual canaries in which every sequence of up to %d kubectl-eds commands (all eight, real command bodies through the export shims) is interleaved with every order of reconciles, kubelet steps, restarts and a later template change; monitor C19 on every command (precondition, refusal leaves no trace, object diff limited to the documented annotation/condition) and the documented withholding of pause-rolling-update / freeze-rollout on every later sync of the active replica set; closures from the states after successful commands check the controller's interpretation; non-trivial = scenarios", b)))
 }
 
 // canaryRSName: canonical name the API layer gives the replica set of template tag in ns/foo.
